@@ -158,7 +158,7 @@ func runC13(c *Ctx) {
 				c.Unk("C13.U3-decode-by-cid-codec", t.pkg+"."+t.bytesTo, token.NoPos, "not found")
 			} else {
 				cidP := Op("param", bt.SSA.Params[0].Name())
-				decs := c.Calls(bt.SSA, Call("schema.decodeIPLDNode", Field("Codec", Call("cid.Cid).Prefix", cidP)), Any(), proto))
+				decs := c.Calls(bt.SSA, c.RoleCall("schema.decode", Field("Codec", Call("cid.Cid).Prefix", cidP)), Any(), proto))
 				okDec := len(decs) == 1
 				var uwCall *CallSite
 				for _, cs := range c.Calls(bt.SSA, Any()) {
@@ -212,7 +212,7 @@ func runC13(c *Ctx) {
 	c.Floor("C13.U4-tonode-total", 2)
 
 	// ---- U3 decode helper ---------------------------------------------------------------------------------
-	if d := c.Func(schemaPkg, "decodeIPLDNode"); d != nil {
+	if d := c.RoleFn("schema.decode"); d != nil {
 		lk := c.Calls(d.SSA, Call("multicodec.LookupDecoder", Op("param", d.SSA.Params[0].Name())))
 		ok := len(lk) == 1
 		if ok {
